@@ -52,8 +52,8 @@ def tmpdir() -> Path:
 # ----------------------------------------------------------------------------
 # the real code
 # ----------------------------------------------------------------------------
-def fmt_score(s: Fraction, floaty: bool, negzero: bool = False) -> str:
-    if not floaty:
+def fmt_score(s: Fraction, floaty: bool, negzero: bool = False, wholetext: bool = False) -> str:
+    if not floaty or (wholetext and s.denominator == 1):
         return str(int(s))
     f = float(s)
     return repr(-0.0 if (negzero and f == 0.0) else f)
@@ -94,7 +94,7 @@ def write_input(i: int, rows, case):
         with open(p, "w") as f:
             f.write("\t".join(order) + "\n")
             for (s, r) in rows:
-                cell = {sc: fmt_score(s, floaty, negzero), "id": str(r), "p": f"r{r}"}
+                cell = {sc: fmt_score(s, floaty, negzero, case.get("wholetext", False)), "id": str(r), "p": f"r{r}"}
                 f.write("\t".join(cell[c] for c in order) + "\n")
         return p, CSVFileReader
     if fmt == "parquet":
@@ -305,6 +305,20 @@ def gen_case(rng, nmax=20, force_cols=False):
                     li.reverse()
                 else:
                     li.append(max(vals) + 1 if desc else min(vals) - 1)
+    wholetext = False
+    if shape == "sorted" and fmt == "csv" and floaty and rng.random() < 0.5:
+        # text files in which whole numbers carry no decimal point ("5", then "4.25"): a reader chunk holding only
+        # such values is parsed as integers, later chunks as floats — the merge must compare them as numbers.
+        # The two best values of every input are made whole: the merger asserts equal column types, which the
+        # text reader infers from the first two rows (int64 for all inputs here), and small reader chunks start
+        # with an integer chunk.
+        import math
+
+        wholetext = True
+        for li in lists:
+            for j in range(min(len(li), 2)):
+                li[j] = Fraction(math.ceil(li[j]) if desc else math.floor(li[j]))
+            li.sort(reverse=desc)
     inputs = with_ids(lists)
     # exact duplicate rows (same score, id, payload): twice in one input, or in two inputs
     dups = 0
@@ -338,7 +352,7 @@ def gen_case(rng, nmax=20, force_cols=False):
         cols = list(rng.choice(COLS_WITHOUT_SCORE if rng.random() < 0.12 else COLS_WITH_SCORE))
     return dict(kind=kind, inputs=inputs, desc=desc, chunk=chunk, fmt=fmt, entry=entry, outer=outer,
                 floaty=floaty, shape=shape, sclass=sclass, scol=scol, spos=spos, negzero=negzero,
-                defaults=defaults, cols=cols, dups=dups)
+                defaults=defaults, cols=cols, dups=dups, wholetext=wholetext)
 
 
 def gen_empty(rng):
@@ -552,7 +566,7 @@ def classify_cols(chk, c, r, resp, ix, info):
         clause = "fail-perm"
     elif r["err"] and (got - pool):
         clause = "fail-subperm"
-    elif r["rows"] and (r["stypes"] != ({"f"} if c["floaty"] else {"i"}) or ("id" in cols and r["itypes"] != {"i"})):
+    elif r["rows"] and not c.get("wholetext") and (r["stypes"] != ({"f"} if c["floaty"] else {"i"}) or ("id" in cols and r["itypes"] != {"i"})):
         clause = "row-modified:type"
     if clause is not None:
         chk.spec_violation(f"columns:{entry}:{clause}", dict(info, expected=model, clause=clause))
@@ -630,6 +644,7 @@ def classify(chk, c, r, resp, ix, tally=True):
         chk.count("ties", len(set(scores)) < len(scores))
         chk.count("scores", "dyadic" if c["floaty"] else "int")
         chk.count("score_class", c.get("sclass", "plain"))
+        chk.count("text_whole_numbers_without_point", bool(c.get("wholetext")))
         chk.count("score_column", f"{score_col(c)}/{c.get('spos', 'first')}")
         chk.count("neg_zero", bool(c.get("negzero")) and any(s == 0 for s in scores))
         chk.count("duplicate_rows", min(c.get("dups", 0), 2))
@@ -664,7 +679,7 @@ def classify(chk, c, r, resp, ix, tally=True):
         chk.spec_violation(f"row-modified:{entry}:columns",
                            dict(info, names=r["names"], clause="rows do not carry the columns of the inputs, in order"))
         return
-    if r["rows"] and (r["stypes"] != ({"f"} if c["floaty"] else {"i"}) or r["itypes"] != {"i"}):
+    if r["rows"] and not c.get("wholetext") and (r["stypes"] != ({"f"} if c["floaty"] else {"i"}) or r["itypes"] != {"i"}):
         chk.spec_violation(f"row-modified:{entry}:type",
                            dict(info, score_kinds=sorted(r["stypes"]), id_kinds=sorted(r["itypes"]),
                                 clause="an integer/float cell came out as a value of another kind"))
